@@ -3,6 +3,7 @@ from __future__ import annotations
 import json, warnings
 import numpy as np
 from .. import core, gen
+from . import c20_stretch as cs
 
 ID = 'C20'
 LEVEL = 'proof'
@@ -291,17 +292,36 @@ def _eval_stretch(case):
     form = case['form']
     odt = np.dtype(case['out'])
     fn = mh.stretch_rgb if case.get('rgb') else mh.stretch
-    lo, hi = (0, 255) if form == 0 else (0, case['hi']) if form == 1 else (case['lo'], case['hi'])
+    (arg0, arg1), (lo, hi) = cs.call_args(case)
+    # how the dtype is requested: keyword with a numpy dtype (default), the Python type `float`, or not at all (uint8)
+    kw = dict(dtype=odt)
+    if case.get('dtype_as') == 'pyfloat' and odt == np.float64:
+        kw = dict(dtype=float)
+    elif case.get('dtype_as') == 'default' and odt == np.uint8:
+        kw = {}
+    err = None
     with warnings.catch_warnings():
         warnings.simplefilter('ignore')
-        if form == 0:
-            out = fn(img, dtype=odt)
-        elif form == 1:
-            out = fn(img, hi, dtype=odt)
-        else:
-            out = fn(img, lo, hi, dtype=odt)
-    out = np.asarray(out)
+        try:
+            if form == 0:
+                out = fn(img, **kw)
+            elif form == 1:
+                out = fn(img, arg0, **kw)
+            else:
+                out = fn(img, arg0, arg1, **kw)
+        except Exception as e:  # noqa: any exception on a legitimate request is reported as `stretch:raises`
+            err, out = f'{type(e).__name__}: {e}', None
     f = []
+    if case.get('rgb') and img.ndim not in (2, 3):
+        # stretch_rgb accepts 2-D and 3-D images only: the model says ValueError, so must the code
+        drv = core.drive([cs.line_stretchrgb(img, arg0, arg1, odt if odt.kind != 'f' else np.dtype('int64'))])[0]
+        f += cs.compare_rgb(drv, out, err)
+        return dict(findings=f, nontrivial=True, sig=json.dumps(case, sort_keys=True),
+                    tags=dict(kind='stretch_rgb', cls='bad-ndim', dtype=case['dtype'], out=case['out'], form=form))
+    if err is not None:
+        f.append(dict(kind='property', key='stretch:raises', detail=dict(error=err)))
+        return dict(findings=f, nontrivial=True, sig=json.dumps(case, sort_keys=True), tags=dict(kind='stretch'))
+    out = np.asarray(out)
     if not (np.array_equal(before, img) and before.dtype == img.dtype):
         f.append(dict(kind='property', key='stretch:input-modified', detail={}))
     if out.dtype != odt:
@@ -312,6 +332,15 @@ def _eval_stretch(case):
     chans = [(img[..., k], out[..., k]) for k in range(img.shape[2])] if (case.get('rgb') and img.ndim == 3) else [(img, out)]
     ftol = 0        # the scaled image is capped at max before the cast: no overshoot, for float outputs either
     nontriv = False
+    # one driver run: the arithmetic model per channel (`stretch`), then the call-level model (`stretchcall` /
+    # `stretchrgb`: argument decoding, cast to the requested dtype, per-channel split)
+    lines = [f'c20 kind=stretch data={core.fmt_floats(x.astype(np.float64).ravel())} lo={lo} hi={hi}' for x, _ in chans if x.size]
+    if case.get('rgb'):
+        call_line = cs.line_stretchrgb(img, arg0, arg1, odt) if odt.kind != 'f' else None
+    else:
+        call_line = cs.line_stretchcall(img.astype(np.float64).ravel(), arg0, arg1, odt) if img.size else None
+    drvs = core.drive(lines + ([call_line] if call_line else []))
+    drv_iter = iter(drvs[:len(lines)])
     for ci, (x, y) in enumerate(chans):
         xv = x.astype(np.float64).ravel()
         yv = y.ravel()
@@ -334,7 +363,7 @@ def _eval_stretch(case):
         if min(yl) < lo - ftol or max(yl) > hi + ftol:
             f.append(dict(kind='property', key='stretch:range', detail=dict(channel=ci, lo=lo, hi=hi, min=min(yl), max=max(yl))))
         # correspondence with the Lean model (Float, same operation order): bit-exact before the cast
-        drv = core.drive([f'c20 kind=stretch data={core.fmt_floats(xv)} lo={lo} hi={hi}'])[0]
+        drv = next(drv_iter)
         mf = core.floats(drv['float'])
         with np.errstate(all='ignore'):
             mcast = mf.astype(odt) if odt != np.bool_ else None
@@ -351,9 +380,15 @@ def _eval_stretch(case):
                 # rational values of the same doubles: must agree with the Float cast `truncF`
                 elif 'intq' in drv and core.ints(drv['intq']) != mi:
                     f.append(dict(kind='model', key='stretch:model-truncq', detail=dict(channel=ci)))
+    if call_line and not f:
+        if case.get('rgb'):
+            f += cs.compare_rgb(drvs[-1], out, None)
+        else:
+            f += cs.compare_call(drvs[-1], out, odt, lo, hi)
     return dict(findings=f, nontrivial=nontriv, sig=json.dumps(case, sort_keys=True),
                 tags=dict(kind='stretch_rgb' if case.get('rgb') else 'stretch', dtype=case['dtype'], out=case['out'],
-                          form=form, layout=case.get('layout', 'C'), cls=case.get('cls', 'random')))
+                          form=form, layout=case.get('layout', 'C'), cls=case.get('cls', 'random'),
+                          dtype_as=case.get('dtype_as', 'numpy-dtype')))
 
 
 def _eval_asrgb(case):
@@ -368,13 +403,24 @@ def _eval_asrgb(case):
         elif spec['t'] == 'scalar':
             chans.append(spec['v'])
         else:
-            chans.append(np.array(spec['data'], dtype=object).astype(spec['dtype']).reshape(shape))
+            chans.append(np.array(spec['data'], dtype=object).astype(spec['dtype']).reshape(tuple(spec.get('shape', shape))))
         befores.append(None if not isinstance(chans[-1], np.ndarray) else chans[-1].copy())
+    err = None
     with warnings.catch_warnings():
         warnings.simplefilter('ignore')
-        out = np.asarray(mh.as_rgb(*chans))
-    f = []
+        try:
+            out = np.asarray(mh.as_rgb(*chans))
+        except (ValueError, AttributeError) as e:
+            err, out = f'{type(e).__name__}: {e}', None
+    # the Lean model of the whole call (Model/C20Stretch.lean `asRgb`): which argument fixes the shape, ValueErrors,
+    # None / number / array channels, np.dstack's shape rules for 1-D, 2-D and N-D channels
+    f = cs.compare_asrgb(core.drive([cs.line_asrgb(chans)])[0], out, err)
     nontriv = False
+    if err is not None or case.get('cls') in ('error', 'nd'):
+        if err is not None and case.get('cls') != 'error':
+            f.append(dict(kind='property', key='as_rgb:raises', detail=dict(error=err)))
+        return dict(findings=f, nontrivial=True, sig=json.dumps(case, sort_keys=True),
+                    tags=dict(kind='as_rgb', cls=case.get('cls', 'image'), raised=err is not None))
     if out.shape != shape + (3,) or out.dtype != np.uint8:
         f.append(dict(kind='property', key='as_rgb:shape-dtype', detail=dict(shape=list(out.shape), dtype=str(out.dtype))))
         return dict(findings=f, nontrivial=True, sig=json.dumps(case, sort_keys=True), tags=dict(kind='as_rgb'))
@@ -384,7 +430,7 @@ def _eval_asrgb(case):
             if y.any():
                 f.append(dict(kind='property', key='as_rgb:none-channel-not-zero', detail=dict(channel=k)))
         elif not isinstance(c, np.ndarray):
-            if not np.all(y == np.uint8(c)):
+            if not np.all(y == (int(c) % 256)):
                 f.append(dict(kind='property', key='as_rgb:scalar-channel', detail=dict(channel=k, value=c)))
         else:
             if not (np.array_equal(b0, c) and b0.dtype == c.dtype):
@@ -404,10 +450,42 @@ def _eval_asrgb(case):
                 ref = np.asarray(mh.stretch(c))
             if not np.array_equal(ref, y):
                 f.append(dict(kind='property', key='as_rgb:channel-is-not-stretch', detail=dict(channel=k)))
-    return dict(findings=f, nontrivial=nontriv, sig=json.dumps(case, sort_keys=True), tags=dict(kind='as_rgb'))
+    return dict(findings=f, nontrivial=nontriv, sig=json.dumps(case, sort_keys=True), tags=dict(kind='as_rgb', cls='image'))
+
+
+def _asrgb_special(rng):
+    """as_rgb calls outside the (h, w) image case: 1-D / 3-D channels (np.dstack's rules), channels of different
+    shapes, no array channel at all (ValueError), numbers outside 0..255 (reduced modulo 256 by the uint8 cast)"""
+    r = rng.random()
+    def arr(shape):
+        n = int(np.prod(shape))
+        return dict(t='array', dtype=rng.choice(['uint8', 'int16', 'float64']), shape=list(shape),
+                    data=[rng.randint(0, 100) for _ in range(n)])
+    if r < 0.3:
+        shape = rng.choice([[rng.randint(1, 6)], [rng.randint(1, 3), rng.randint(1, 3), rng.randint(1, 3)],
+                            [rng.randint(1, 2), rng.randint(1, 3), rng.randint(1, 2), rng.randint(1, 2)]])
+        chans = [rng.choice([None, dict(t='scalar', v=rng.randint(-300, 600)), arr(shape), arr(shape)]) for _ in range(3)]
+        if not any(c is not None and c['t'] == 'array' for c in chans):
+            chans[rng.randrange(3)] = arr(shape)
+        return dict(kind='as_rgb', cls='nd', shape=shape, chans=chans)
+    if r < 0.55:
+        chans = [rng.choice([None, None, dict(t='scalar', v=rng.randint(0, 255))]) for _ in range(3)]
+        return dict(kind='as_rgb', cls='error', shape=[1, 1], chans=chans)
+    if r < 0.8:
+        shape = [rng.randint(1, 4), rng.randint(1, 4)]
+        other = rng.choice([[shape[1] + 1, shape[0]], [shape[0] * shape[1] + 1], shape + [1], [shape[0], shape[1] + 1]])
+        chans = [arr(shape), arr(other), rng.choice([None, arr(shape), dict(t='scalar', v=3)])]
+        rng.shuffle(chans)
+        return dict(kind='as_rgb', cls='error', shape=shape, chans=chans)
+    shape = [rng.randint(1, 4), rng.randint(1, 4)]
+    chans = [arr(shape), dict(t='scalar', v=rng.choice([-1, 256, 300, -200, 1000, 255, 0])), rng.choice([None, dict(t='scalar', v=rng.randint(-1000, 1000))])]
+    rng.shuffle(chans)
+    return dict(kind='as_rgb', cls='image', shape=shape, chans=chans)
 
 
 def _asrgb_case(rng):
+    if rng.random() < 0.25:
+        return _asrgb_special(rng)
     shape = [rng.randint(1, 5), rng.randint(1, 5)]
     n = shape[0] * shape[1]
     chans = []
@@ -462,7 +540,7 @@ def _corpus():
 
 LATTICE = list(range(0, 256, 5))          # 52 steps per channel
 INT_IMG_DTYPES = ['bool', 'uint8', 'uint16', 'uint32', 'uint64', 'int8', 'int16', 'int32', 'int64']
-OUT_DTYPES = ['uint8', 'uint16', 'uint32', 'int8', 'int16', 'int32', 'int64', 'uint64', 'float32', 'float64']
+OUT_DTYPES = ['uint8', 'uint16', 'uint32', 'int8', 'int16', 'int32', 'int64', 'uint64', 'float32', 'float64', 'bool']
 
 
 def _stretch_case(rng):
@@ -471,6 +549,8 @@ def _stretch_case(rng):
     if rgb:
         shape = [rng.randint(1, 4), rng.randint(1, 4), rng.choice([1, 3, 3, 4])] if rng.random() < 0.8 else \
             [rng.randint(1, 4), rng.randint(1, 5)]
+        if rng.random() < 0.04:         # neither 2-D nor 3-D: ValueError
+            shape = rng.choice([[rng.randint(1, 6)], [rng.randint(1, 3), rng.randint(1, 3), 3, rng.randint(1, 2)]])
     else:
         shape = list(gen.small_shape(rng))
     n = int(np.prod(shape))
@@ -512,8 +592,16 @@ def _stretch_case(rng):
         lo = rng.choice([blo, 0, rng.randint(blo, bhi), rng.randint(max(blo, -300), min(bhi, 300)), max(blo, -rng.randint(1, 100))])
         # (an upper bound of exactly 0 above a negative lower bound is a legitimate request, falsy in Python)
         hi = rng.choice([bhi, lo, lo + 1 if lo < bhi else lo, rng.randint(lo, bhi), rng.randint(lo, min(bhi, lo + 300)), 0 if lo <= 0 <= bhi else bhi])
-    return dict(kind='stretch', dtype=dtype, shape=shape, data=data, form=form, lo=int(lo), hi=int(hi), out=out,
-                rgb=rgb, layout=rng.choice(gen.LAYOUTS), cls=cls)
+    c = dict(kind='stretch', dtype=dtype, shape=shape, data=data, form=form, lo=int(lo), hi=int(hi), out=out,
+             rgb=rgb, layout=rng.choice(gen.LAYOUTS), cls=cls)
+    if form == 0 and rng.random() < 0.2:
+        # stretch(img, None, x): the second positional argument is ignored, the range stays (0, 255)
+        c.update(form=3, hi=int(rng.choice([0, 1, 100, 255, 1000, -5])))
+    if out == 'float64' and rng.random() < 0.5:
+        c['dtype_as'] = 'pyfloat'       # dtype=float
+    elif out == 'uint8' and rng.random() < 0.4:
+        c['dtype_as'] = 'default'       # no dtype argument
+    return c
 
 
 def cases(rng, tier):
